@@ -25,6 +25,8 @@ IfEq(a, b, y, n) == [k |-> "eq", a |-> a, b |-> b, y |-> y, n |-> n]
 Switch(v, cases, hasD, d) == [k |-> "sw", v |-> v, cases |-> cases, hasDflt |-> hasD, dflt |-> d]
 Inv(fn, args) == [k |-> "inv", fn |-> fn, args |-> args]
 Plain(c) == <<[w |-> "plain", c |-> c]>>
+Link(args) == [k |-> "l", args |-> args]
+Ext(c) == [k |-> "x", c |-> c]
 
 ThePreBody == <<Txt(<<"<">>), Call("T1", <<Pos(<<Txt(<<"z">>)>>)>>), Call("NOPE", <<>>), Txt(<<">">>)>>
 
@@ -61,7 +63,10 @@ CallPages == { <<Call(n, <<Pos(v)>>)>> : n \in {"T1", "T2", "NOPE", "E"}, v \in 
 PfnPages == { <<If(c, <<Call("T1", <<Pos(<<Txt(<<"y">>)>>)>>)>>, <<Txt(<<"n">>)>>)>> : c \in V0 }
             \cup { <<IfEq(<<Call("Sp", <<>>)>>, <<Txt(<<"v">>)>>, <<Txt(<<"eq">>)>>, <<Call("T2", <<>>)>>)>>,
                    <<Switch(<<Call("Sp", <<>>)>>, <<[key |-> <<"v">>, val |-> <<Call("T1", <<Pos(<<Txt(<<"s">>)>>)>>)>>]>>, TRUE, <<Txt(<<"d">>)>>)>>,
-                   <<ParD(<<"z">>, <<Call("T1", <<Pos(<<Txt(<<"q">>)>>)>>)>>)>>, <<Par(<<"z">>)>> }
+                   <<ParD(<<"z">>, <<Call("T1", <<Pos(<<Txt(<<"q">>)>>)>>)>>)>>, <<Par(<<"z">>)>>,
+                   <<Link(<<<<Txt(<<"a">>)>>, <<Call("T1", <<Pos(<<Txt(<<"l">>)>>)>>), Call("T2", <<>>)>>>>)>>,
+                   <<Ext(<<Call("Sp", <<>>), Inv("echo", <<Pos(<<Txt(<<"e">>)>>)>>)>>)>>,
+                   <<Call("T1", <<Pos(<<Link(<<<<Txt(<<"b">>)>>, <<Call("A", <<>>)>>>>)>>)>>)>> }
 InvPages == { <<Inv(fn, <<Pos(v)>>)>> : fn \in {"echo", "err", "pre", "tpl"}, v \in {<<Txt(<<"a">>)>>, <<Call("T1", <<Pos(<<Txt(<<"i">>)>>)>>)>>} }
             \cup { <<Call("T1", <<Pos(<<Inv("echo", <<Pos(<<Txt(<<"a">>)>>)>>)>>)>>)>>,
                    <<Inv("err", <<>>), Inv("echo", <<Pos(<<Txt(<<"b">>)>>)>>), Inv("err", <<>>)>>,
